@@ -137,6 +137,10 @@ func (e *engine) collect() []simkit.Action {
 	}
 	acts = append(acts, simkit.Action{Prio: 2, Key: "tick", Weight: 2, Do: func() {
 		d := time.Duration(20+e.r.Tape.Intn(400)) * time.Millisecond
+		if e.r.Tape.Intn(5) == 4 {
+			d += 6 * time.Second // lets coalesced leader checkpoints (5 s) and idle timers fire
+			e.r.Probe("tick.long")
+		}
 		e.r.Logf("  tick %v", d)
 		time.Sleep(d)
 	}})
@@ -170,13 +174,17 @@ func (e *engine) collect() []simkit.Action {
 		if iso == nil {
 			acts = append(acts, simkit.Action{Prio: 6, Key: "isolate", Weight: 1, Do: func() {
 				n := w.nodes[w.ids[e.r.Tape.Intn(len(w.ids))]]
+				w.mu.Lock()
 				n.isolated = true
+				w.mu.Unlock()
 				e.r.Fault("net.isolate")
 				e.r.Logf("  isolate node %d", n.id)
 			}})
 		} else {
 			acts = append(acts, simkit.Action{Prio: 4, Key: "heal", Weight: 2, Do: func() {
+				w.mu.Lock()
 				iso.isolated = false
+				w.mu.Unlock()
 				e.r.Logf("  heal node %d", iso.id)
 			}})
 		}
